@@ -1,6 +1,6 @@
 // layout21raw::lef::l21v — coordinate kernels of the LEF -> raw import (property C16)
 // encodes: layout21raw::lef::LefImporter::import_dist, import_point, import_point_vec, import_rect, import_polygon, import_path, import_shape, import_geometry, rust_decimal::Decimal::{mul, fract, is_zero, mantissa, trunc}
-// stubs: alloc::fmt::format -> empty string (error messages); std::hash::RandomState::new -> fixed keys (the importer's containers are constructed, never used); std::sync::Arc::drop_slow -> no-op
+// stubs: rust_decimal `&Decimal * Decimal`, Decimal::trunc, Decimal::fract, Ord::cmp, PartialEq::eq -> exact i128 models on (mantissa, scale) (common/decimal_model.rs; the crate's 96-bit limb loops do not finish under CBMC; the models are compared with the real crate on ~2 million values inside the harness bound by l21v-tablegen on every run); alloc::fmt::format -> empty string (error messages); std::sync::Arc::drop_slow -> no-op
 // bound *: decimals m * 10^-scale with |m| <= 2^20 and scale concrete per instance in 0..=6 (so 0..6 decimal places, negative values, trailing zeros); rectangles, 3-point polygons, 2-point paths
 #[allow(unused_imports)]
 use super::*;
@@ -17,6 +17,9 @@ pub fn arc_drop_noop<T: ?Sized, A: std::alloc::Allocator>(_a: &mut std::sync::Ar
 pub fn random_state_stub() -> std::collections::hash_map::RandomState {
     unsafe { core::mem::transmute::<[u64; 2], std::collections::hash_map::RandomState>([0u64, 0u64]) }
 }
+
+// ---- rust_decimal models (used under Kani only; validated natively against the real crate by l21v-tablegen) -------------
+include!(concat!(env!("L21V_HARNESS_DIR"), "/../common/decimal_model.rs"));
 
 /// raw units per micron used by the importer (LEF distances are microns; raw units are angstroms)
 const PER_MICRON: i64 = 10_000;
@@ -68,7 +71,12 @@ fn expect(m: i64, scale: u32) -> Option<i64> {
 
 /// D1: import_dist is exact, independent of trailing zeros, and refuses fractions of a raw unit
 fn dist_body<S: Src>(s: &mut S, scale: u32) {
+    dist_body_b(s, scale, 20)
+}
+/// the same with |m| <= 2^bits (the deep scales, where fractions of a raw unit occur, are run on a smaller range)
+fn dist_body_b<S: Src>(s: &mut S, scale: u32, bits: u32) {
     let m = mant(s);
+    vassume!(s, m >= -(1i64 << bits) && m <= (1i64 << bits));
     vnote!(s, "dec", "{} * 10^-{}", m, scale);
     s.tag("trailing_zero", scale > 0 && m % 10 == 0 && m != 0);
     s.tag("scaled", scale > 0);
@@ -91,6 +99,8 @@ fn dist_body<S: Src>(s: &mut S, scale: u32) {
         (Err(_), None) => {}
     }
     vcover!(s, r.is_ok() && m < 0, "negative value converted reachable");
+    // (fractions of a raw unit exist only beyond four decimal places)
+    vcover!(s, scale <= 4 || (r.is_err() && m < 0), "negative fraction of a raw unit refused reachable");
     core::mem::forget(r);
 }
 pub fn c16_q_d1_scale0<S: Src>(s: &mut S) {
@@ -105,13 +115,19 @@ pub fn c16_q_d1_scale2<S: Src>(s: &mut S) {
 pub fn c16_t_d1_scale3<S: Src>(s: &mut S) {
     dist_body(s, 3)
 }
-pub fn c16_q_d1_scale4<S: Src>(s: &mut S) {
+pub fn c16_t_d1_scale4<S: Src>(s: &mut S) {
     dist_body(s, 4)
 }
-pub fn c16_t_d1_scale5<S: Src>(s: &mut S) {
+pub fn c16_x_d1_scale5<S: Src>(s: &mut S) {
     dist_body(s, 5)
 }
-pub fn c16_t_d1_scale6<S: Src>(s: &mut S) {
+pub fn c16_q_d1_frac5<S: Src>(s: &mut S) {
+    dist_body_b(s, 5, 8)
+}
+pub fn c16_t_d1_frac6<S: Src>(s: &mut S) {
+    dist_body_b(s, 6, 8)
+}
+pub fn c16_x_d1_scale6<S: Src>(s: &mut S) {
     dist_body(s, 6)
 }
 
@@ -145,10 +161,10 @@ fn point_body<S: Src>(s: &mut S, sx: u32, sy: u32) {
 pub fn c16_q_d2_point_s0<S: Src>(s: &mut S) {
     point_body(s, 0, 0)
 }
-pub fn c16_q_d2_point_s2_s3<S: Src>(s: &mut S) {
+pub fn c16_t_d2_point_s2_s3<S: Src>(s: &mut S) {
     point_body(s, 2, 3)
 }
-pub fn c16_t_d2_point_s4_s1<S: Src>(s: &mut S) {
+pub fn c16_x_d2_point_s4_s1<S: Src>(s: &mut S) {
     point_body(s, 4, 1)
 }
 
@@ -227,17 +243,17 @@ fn shape_body<S: Src>(s: &mut S, kind: u8, scale: u32) {
     core::mem::forget(shape);
     core::mem::forget(lg);
 }
-pub fn c16_q_d3_rect_s2<S: Src>(s: &mut S) {
+pub fn c16_x_d3_rect_s2<S: Src>(s: &mut S) {
     shape_body(s, 0, 2)
 }
-pub fn c16_t_d3_poly_s3<S: Src>(s: &mut S) {
+pub fn c16_x_d3_poly_s3<S: Src>(s: &mut S) {
     shape_body(s, 1, 3)
 }
-pub fn c16_q_d3_path_s1<S: Src>(s: &mut S) {
+pub fn c16_x_d3_path_s1<S: Src>(s: &mut S) {
     shape_body(s, 2, 1)
 }
 /// ITERATE (step pattern) geometries are reported as unsupported, never silently dropped or mis-imported
-pub fn c16_q_d3_iterate<S: Src>(s: &mut S) {
+pub fn c16_x_d3_iterate<S: Src>(s: &mut S) {
     let (a, _) = lpt(s, 0);
     let (b, _) = lpt(s, 0);
     let lg = layer_geoms(None);
@@ -260,18 +276,20 @@ pub fn replay(name: &str, vals: Vec<Vec<u8>>) -> ReplayOut {
 }
 
 harnesses! { k, "sel_raw_lef.rs";
-    #[kani::stub(alloc::fmt::format, fmt_stub)] #[kani::stub(std::sync::Arc::drop_slow, arc_drop_noop)] #[kani::unwind(12)] c16_q_d1_scale0;
-    #[kani::stub(alloc::fmt::format, fmt_stub)] #[kani::stub(std::sync::Arc::drop_slow, arc_drop_noop)] #[kani::unwind(12)] c16_t_d1_scale1;
-    #[kani::stub(alloc::fmt::format, fmt_stub)] #[kani::stub(std::sync::Arc::drop_slow, arc_drop_noop)] #[kani::unwind(12)] c16_q_d1_scale2;
-    #[kani::stub(alloc::fmt::format, fmt_stub)] #[kani::stub(std::sync::Arc::drop_slow, arc_drop_noop)] #[kani::unwind(12)] c16_t_d1_scale3;
-    #[kani::stub(alloc::fmt::format, fmt_stub)] #[kani::stub(std::sync::Arc::drop_slow, arc_drop_noop)] #[kani::unwind(12)] c16_q_d1_scale4;
-    #[kani::stub(alloc::fmt::format, fmt_stub)] #[kani::stub(std::sync::Arc::drop_slow, arc_drop_noop)] #[kani::unwind(12)] c16_t_d1_scale5;
-    #[kani::stub(alloc::fmt::format, fmt_stub)] #[kani::stub(std::sync::Arc::drop_slow, arc_drop_noop)] #[kani::unwind(12)] c16_t_d1_scale6;
-    #[kani::stub(alloc::fmt::format, fmt_stub)] #[kani::stub(std::sync::Arc::drop_slow, arc_drop_noop)] #[kani::unwind(12)] c16_q_d2_point_s0;
-    #[kani::stub(alloc::fmt::format, fmt_stub)] #[kani::stub(std::sync::Arc::drop_slow, arc_drop_noop)] #[kani::unwind(12)] c16_q_d2_point_s2_s3;
-    #[kani::stub(alloc::fmt::format, fmt_stub)] #[kani::stub(std::sync::Arc::drop_slow, arc_drop_noop)] #[kani::unwind(12)] c16_t_d2_point_s4_s1;
-    #[kani::stub(alloc::fmt::format, fmt_stub)] #[kani::stub(std::sync::Arc::drop_slow, arc_drop_noop)] #[kani::unwind(12)] c16_q_d3_rect_s2;
-    #[kani::stub(alloc::fmt::format, fmt_stub)] #[kani::stub(std::sync::Arc::drop_slow, arc_drop_noop)] #[kani::unwind(12)] c16_t_d3_poly_s3;
-    #[kani::stub(alloc::fmt::format, fmt_stub)] #[kani::stub(std::sync::Arc::drop_slow, arc_drop_noop)] #[kani::unwind(12)] c16_q_d3_path_s1;
-    #[kani::stub(alloc::fmt::format, fmt_stub)] #[kani::stub(std::sync::Arc::drop_slow, arc_drop_noop)] #[kani::unwind(12)] c16_q_d3_iterate;
+    #[kani::stub(alloc::fmt::format, fmt_stub)] #[kani::stub(std::sync::Arc::drop_slow, arc_drop_noop)] #[kani::stub(<&rust_decimal::Decimal as core::ops::Mul<rust_decimal::Decimal>>::mul, mul_model)] #[kani::stub(rust_decimal::Decimal::trunc, trunc_model)] #[kani::stub(rust_decimal::Decimal::fract, fract_model)] #[kani::stub(<rust_decimal::Decimal as core::cmp::Ord>::cmp, cmp_model)] #[kani::unwind(12)] c16_q_d1_scale0;
+    #[kani::stub(alloc::fmt::format, fmt_stub)] #[kani::stub(std::sync::Arc::drop_slow, arc_drop_noop)] #[kani::stub(<&rust_decimal::Decimal as core::ops::Mul<rust_decimal::Decimal>>::mul, mul_model)] #[kani::stub(rust_decimal::Decimal::trunc, trunc_model)] #[kani::stub(rust_decimal::Decimal::fract, fract_model)] #[kani::stub(<rust_decimal::Decimal as core::cmp::Ord>::cmp, cmp_model)] #[kani::unwind(12)] c16_t_d1_scale1;
+    #[kani::stub(alloc::fmt::format, fmt_stub)] #[kani::stub(std::sync::Arc::drop_slow, arc_drop_noop)] #[kani::stub(<&rust_decimal::Decimal as core::ops::Mul<rust_decimal::Decimal>>::mul, mul_model)] #[kani::stub(rust_decimal::Decimal::trunc, trunc_model)] #[kani::stub(rust_decimal::Decimal::fract, fract_model)] #[kani::stub(<rust_decimal::Decimal as core::cmp::Ord>::cmp, cmp_model)] #[kani::unwind(12)] c16_q_d1_scale2;
+    #[kani::stub(alloc::fmt::format, fmt_stub)] #[kani::stub(std::sync::Arc::drop_slow, arc_drop_noop)] #[kani::stub(<&rust_decimal::Decimal as core::ops::Mul<rust_decimal::Decimal>>::mul, mul_model)] #[kani::stub(rust_decimal::Decimal::trunc, trunc_model)] #[kani::stub(rust_decimal::Decimal::fract, fract_model)] #[kani::stub(<rust_decimal::Decimal as core::cmp::Ord>::cmp, cmp_model)] #[kani::unwind(12)] c16_t_d1_scale3;
+    #[kani::stub(alloc::fmt::format, fmt_stub)] #[kani::stub(std::sync::Arc::drop_slow, arc_drop_noop)] #[kani::stub(<&rust_decimal::Decimal as core::ops::Mul<rust_decimal::Decimal>>::mul, mul_model)] #[kani::stub(rust_decimal::Decimal::trunc, trunc_model)] #[kani::stub(rust_decimal::Decimal::fract, fract_model)] #[kani::stub(<rust_decimal::Decimal as core::cmp::Ord>::cmp, cmp_model)] #[kani::unwind(12)] c16_t_d1_scale4;
+    #[kani::stub(alloc::fmt::format, fmt_stub)] #[kani::stub(std::sync::Arc::drop_slow, arc_drop_noop)] #[kani::stub(<&rust_decimal::Decimal as core::ops::Mul<rust_decimal::Decimal>>::mul, mul_model)] #[kani::stub(rust_decimal::Decimal::trunc, trunc_model)] #[kani::stub(rust_decimal::Decimal::fract, fract_model)] #[kani::stub(<rust_decimal::Decimal as core::cmp::Ord>::cmp, cmp_model)] #[kani::unwind(12)] c16_x_d1_scale5;
+    #[kani::stub(alloc::fmt::format, fmt_stub)] #[kani::stub(std::sync::Arc::drop_slow, arc_drop_noop)] #[kani::stub(<&rust_decimal::Decimal as core::ops::Mul<rust_decimal::Decimal>>::mul, mul_model)] #[kani::stub(rust_decimal::Decimal::trunc, trunc_model)] #[kani::stub(rust_decimal::Decimal::fract, fract_model)] #[kani::stub(<rust_decimal::Decimal as core::cmp::Ord>::cmp, cmp_model)] #[kani::unwind(12)] c16_q_d1_frac5;
+    #[kani::stub(alloc::fmt::format, fmt_stub)] #[kani::stub(std::sync::Arc::drop_slow, arc_drop_noop)] #[kani::stub(<&rust_decimal::Decimal as core::ops::Mul<rust_decimal::Decimal>>::mul, mul_model)] #[kani::stub(rust_decimal::Decimal::trunc, trunc_model)] #[kani::stub(rust_decimal::Decimal::fract, fract_model)] #[kani::stub(<rust_decimal::Decimal as core::cmp::Ord>::cmp, cmp_model)] #[kani::unwind(12)] c16_t_d1_frac6;
+    #[kani::stub(alloc::fmt::format, fmt_stub)] #[kani::stub(std::sync::Arc::drop_slow, arc_drop_noop)] #[kani::stub(<&rust_decimal::Decimal as core::ops::Mul<rust_decimal::Decimal>>::mul, mul_model)] #[kani::stub(rust_decimal::Decimal::trunc, trunc_model)] #[kani::stub(rust_decimal::Decimal::fract, fract_model)] #[kani::stub(<rust_decimal::Decimal as core::cmp::Ord>::cmp, cmp_model)] #[kani::unwind(12)] c16_x_d1_scale6;
+    #[kani::stub(alloc::fmt::format, fmt_stub)] #[kani::stub(std::sync::Arc::drop_slow, arc_drop_noop)] #[kani::stub(<&rust_decimal::Decimal as core::ops::Mul<rust_decimal::Decimal>>::mul, mul_model)] #[kani::stub(rust_decimal::Decimal::trunc, trunc_model)] #[kani::stub(rust_decimal::Decimal::fract, fract_model)] #[kani::stub(<rust_decimal::Decimal as core::cmp::Ord>::cmp, cmp_model)] #[kani::unwind(12)] c16_q_d2_point_s0;
+    #[kani::stub(alloc::fmt::format, fmt_stub)] #[kani::stub(std::sync::Arc::drop_slow, arc_drop_noop)] #[kani::stub(<&rust_decimal::Decimal as core::ops::Mul<rust_decimal::Decimal>>::mul, mul_model)] #[kani::stub(rust_decimal::Decimal::trunc, trunc_model)] #[kani::stub(rust_decimal::Decimal::fract, fract_model)] #[kani::stub(<rust_decimal::Decimal as core::cmp::Ord>::cmp, cmp_model)] #[kani::unwind(12)] c16_t_d2_point_s2_s3;
+    #[kani::stub(alloc::fmt::format, fmt_stub)] #[kani::stub(std::sync::Arc::drop_slow, arc_drop_noop)] #[kani::stub(<&rust_decimal::Decimal as core::ops::Mul<rust_decimal::Decimal>>::mul, mul_model)] #[kani::stub(rust_decimal::Decimal::trunc, trunc_model)] #[kani::stub(rust_decimal::Decimal::fract, fract_model)] #[kani::stub(<rust_decimal::Decimal as core::cmp::Ord>::cmp, cmp_model)] #[kani::unwind(12)] c16_x_d2_point_s4_s1;
+    #[kani::stub(alloc::fmt::format, fmt_stub)] #[kani::stub(std::sync::Arc::drop_slow, arc_drop_noop)] #[kani::stub(<&rust_decimal::Decimal as core::ops::Mul<rust_decimal::Decimal>>::mul, mul_model)] #[kani::stub(rust_decimal::Decimal::trunc, trunc_model)] #[kani::stub(rust_decimal::Decimal::fract, fract_model)] #[kani::stub(<rust_decimal::Decimal as core::cmp::Ord>::cmp, cmp_model)] #[kani::unwind(12)] c16_x_d3_rect_s2;
+    #[kani::stub(alloc::fmt::format, fmt_stub)] #[kani::stub(std::sync::Arc::drop_slow, arc_drop_noop)] #[kani::stub(<&rust_decimal::Decimal as core::ops::Mul<rust_decimal::Decimal>>::mul, mul_model)] #[kani::stub(rust_decimal::Decimal::trunc, trunc_model)] #[kani::stub(rust_decimal::Decimal::fract, fract_model)] #[kani::stub(<rust_decimal::Decimal as core::cmp::Ord>::cmp, cmp_model)] #[kani::unwind(12)] c16_x_d3_poly_s3;
+    #[kani::stub(alloc::fmt::format, fmt_stub)] #[kani::stub(std::sync::Arc::drop_slow, arc_drop_noop)] #[kani::stub(<&rust_decimal::Decimal as core::ops::Mul<rust_decimal::Decimal>>::mul, mul_model)] #[kani::stub(rust_decimal::Decimal::trunc, trunc_model)] #[kani::stub(rust_decimal::Decimal::fract, fract_model)] #[kani::stub(<rust_decimal::Decimal as core::cmp::Ord>::cmp, cmp_model)] #[kani::unwind(12)] c16_x_d3_path_s1;
+    #[kani::stub(alloc::fmt::format, fmt_stub)] #[kani::stub(std::sync::Arc::drop_slow, arc_drop_noop)] #[kani::stub(<&rust_decimal::Decimal as core::ops::Mul<rust_decimal::Decimal>>::mul, mul_model)] #[kani::stub(rust_decimal::Decimal::trunc, trunc_model)] #[kani::stub(rust_decimal::Decimal::fract, fract_model)] #[kani::stub(<rust_decimal::Decimal as core::cmp::Ord>::cmp, cmp_model)] #[kani::unwind(12)] c16_x_d3_iterate;
 }
